@@ -1,8 +1,23 @@
 //! axmc — bounded exhaustive exploration of xarantolus/ax (see /verif/DESIGN.md).
 
 mod c07;
+mod c08;
+mod c09;
+mod c10;
+mod c11;
+mod c12;
+mod c13;
+mod c14;
+mod c15;
+mod c16;
+mod c17;
+mod c18;
+mod c19;
+mod c20;
 mod common;
+mod elfgen;
 mod emu;
+mod enumrun;
 mod natdiff;
 mod native;
 mod props_nat;
@@ -54,6 +69,12 @@ fn main() {
             replay(&pos[0], &pos[1])
         }
         "census-baseline" => props_nat::census_baseline(),
+        "c20-child" => {
+            if pos.len() < 2 {
+                usage();
+            }
+            c20::child(pos[0].parse().unwrap_or(3), &pos[1])
+        }
         "bench" => {
             use ax_x86::axecutor::Axecutor;
             // 67 8b 03 = mov eax,[ebx] (panics on the pinned tree); 8b 03 = mov eax,[rbx]
@@ -85,6 +106,19 @@ fn run_prop(id: &str, tier: Tier) -> i32 {
         "C05" => props_nat::c05(tier),
         "C06" => props_nat::c06(tier),
         "C07" => c07::run(tier),
+        "C08" => c08::run(tier),
+        "C09" => c09::run(tier),
+        "C10" => c10::run(tier),
+        "C11" => c11::run(tier),
+        "C12" => c12::run(tier),
+        "C13" => c13::run(tier),
+        "C14" => c14::run(tier),
+        "C15" => c15::run(tier),
+        "C16" => c16::run(tier),
+        "C17" => c17::run(tier),
+        "C18" => c18::run(tier),
+        "C19" => c19::run(tier),
+        "C20" => c20::run(tier),
         _ => common::machinery_error(&format!("no check registered for {id}")),
     }
 }
